@@ -32,6 +32,15 @@ chk("C04", "model_checking",
     "TLA+ spec SpaceGroup.tla model-checked by TLC on exported tables + replay of every lookup behaviour into sg.sg",
     "DESIGN.md section 7 C04")
 
+chk("C15", "model_checking",
+    "TLC computes the exact orbit size of rational positions under every exported table (all 237 settings; quick: 60 seeded "
+    "grid points + 28 special-position family members per table, thorough: the full 12^3 grid + families) and checks "
+    "orbit-stabiliser, divisibility, representative-independence and lattice-shift invariance in the model; every case is "
+    "replayed into the real multiplicity() with float coordinates shifted by lattice vectors, by number+setting and by name.",
+    "Trusted: TLC, exporter (24ths), the group laws of the tables (C04's subject; a table that is not a group is reported here too).",
+    "TLA+ spec Multiplicity.tla (exact orbits over exported tables) model-checked by TLC + replay of every case into multiplicity()",
+    "DESIGN.md section 7 C15")
+
 ALL = ["C%02d" % i for i in range(1, 21)]
 
 
